@@ -25,6 +25,7 @@ import (
 	"os"
 	"sort"
 	"strings"
+	"time"
 
 	"github.com/awslabs/ar-go-tools/analysis"
 	"github.com/awslabs/ar-go-tools/analysis/maypanic"
@@ -89,6 +90,32 @@ func runReal(prog *ssa.Program, exclude []string) ([]finding, string, error) {
 	return fs, string(raw), nil
 }
 
+// sortedFunctions is hutil.SortedFunctions with the sort keys computed once.
+func sortedFunctions(p *ssa.Program) []*ssa.Function {
+	type kf struct {
+		k string
+		f *ssa.Function
+	}
+	var ks []kf
+	for f := range ssautil.AllFunctions(p) {
+		ks = append(ks, kf{f.String() + "\x00" + hutil.PosStr(p.Fset, f.Pos()) + "\x00" + fmt.Sprintf("%06d", len(f.Blocks)), f})
+	}
+	sort.Slice(ks, func(i, j int) bool { return ks[i].k < ks[j].k })
+	out := make([]*ssa.Function, len(ks))
+	for i := range ks {
+		out[i] = ks[i].f
+	}
+	return out
+}
+
+var t0 = time.Now()
+
+func lap(what string) {
+	if os.Getenv("C19_TIMING") != "" {
+		fmt.Fprintf(os.Stderr, "%6.2fs %s\n", time.Since(t0).Seconds(), what)
+	}
+}
+
 func main() {
 	out := flag.String("o", "-", "output file")
 	var excl multi
@@ -126,13 +153,14 @@ func main() {
 		os.Exit(2)
 	}
 
+	lap("loaded")
 	allow := maypanic.VerifAllowList()
 	for _, a := range allow {
 		w("A", a)
 	}
 	w("W", cwd)
 
-	fns := hutil.SortedFunctions(prog)
+	fns := sortedFunctions(prog)
 	fid := map[*ssa.Function]int{}
 	for i, f := range fns {
 		fid[f] = i
@@ -182,6 +210,15 @@ func main() {
 		}
 		return false
 	}
+	userFn := func(f *ssa.Function) bool {
+		if userPkg(f) {
+			return true
+		}
+		if f.Pkg == nil && f.Object() != nil && f.Object().Pkg() != nil {
+			return !maypanic.VerifAllowListed(f.Object().Pkg().Path())
+		}
+		return false
+	}
 	implementers := func(recv types.Type, name string) []int {
 		var res []int
 		iface, ok := recv.Underlying().(*types.Interface)
@@ -205,7 +242,7 @@ func main() {
 	sameSig := func(sig *types.Signature) []int {
 		var res []int
 		for i, f := range fns {
-			if f.Signature.Recv() != nil || len(f.Blocks) == 0 {
+			if f.Signature.Recv() != nil || len(f.Blocks) == 0 || !userFn(f) {
 				continue
 			}
 			if types.Identical(f.Signature, sig) {
@@ -217,6 +254,7 @@ func main() {
 
 	for i, f := range fns {
 		user := userPkg(f)
+		seenCall := map[string]bool{}
 		for _, b := range f.Blocks {
 			for _, ins := range b.Instrs {
 				var kind string
@@ -269,6 +307,12 @@ func main() {
 					// but keep one representative of every other form per function so that the model sees them
 					arg = "-"
 				}
+				if kind == "call" {
+					if seenCall[form+" "+arg] {
+						continue
+					}
+					seenCall[form+" "+arg] = true
+				}
 				w("I", fmt.Sprint(i), kind, form, clean(arg), pid)
 				if dynamic {
 					parts := []string{"T", fmt.Sprint(i), pid, kind}
@@ -281,6 +325,7 @@ func main() {
 		}
 	}
 
+	lap("mini-IR dumped")
 	// ---- the real stages
 	all := ssautil.AllFunctions(prog)
 	goFns := maypanic.VerifFindGoFunctions(all)
@@ -318,6 +363,7 @@ func main() {
 		}
 	}
 
+	lap("stages dumped")
 	configs := [][]string{{}}
 	for _, e := range excl {
 		var c []string
@@ -331,6 +377,7 @@ func main() {
 	for k, c := range configs {
 		w(append([]string{"E", fmt.Sprint(k)}, c...)...)
 		findings, raw, err := runReal(prog, analysisutil.MakeAbsolute(c))
+		lap("analyzer run")
 		if err != nil {
 			w("ERR", clean(err.Error()+": "+raw))
 			continue
